@@ -83,16 +83,19 @@ def handleEvf : List String → String
   | _ => "bad-op"
 
 
-/-- `block <cpre> <fpre> <ename> <scopeword> <nsscope> <inclass 0|1> <pytype> <member>*`
+/-- `block <cpre> <fpre> <ename> <scopeword> <nsscope> <inclass 0|1> <pytype> <flags c,f,py e.g. 111> <member>*`
     answer `ok <cblock> <fblock> <pyitems> <evalBlockC> <evalBlockF>`; blocks are line lists (`encStrs`) -/
 def handleBlock : List String → String
-  | cpre :: fpre :: ename :: sw :: nss :: ic :: pyt :: members =>
+  | cpre :: fpre :: ename :: sw :: nss :: ic :: pyt :: flags :: members =>
     match members.mapM decMember with
     | none => "bad-member"
     | some ms =>
       let sword := decStr sw
       let c : Cfg := { cpre := decStr cpre, fpre := decStr fpre, ename := decStr ename, isScoped := !sword.isEmpty }
-      let b : BlockCfg := { cfg := c, nsScope := decStr nss, scopeWord := sword, inClass := ic == "1", pyType := decStr pyt }
+      let fl (i : Nat) : Bool := flags.toList.getD i '1' == '1'
+      let b : BlockCfg :=
+        { cfg := c, nsScope := decStr nss, scopeWord := sword, inClass := ic == "1", pyType := decStr pyt,
+          wrapC := fl 0, wrapF := fl 1, wrapPy := fl 2 }
       let os := enumMembers c ms
       let cb := cBlock b os
       let fb := fBlock b os
